@@ -59,6 +59,14 @@ func execHops(input string) Result {
 			u := fmt.Sprintf("http://other.example/p%d", i)
 			fmt.Fprintf(&b, "<a href=\"%s\">x</a>\n", u)
 			want = append(want, u+"|0")
+		case "x": // a host that merely ENDS with the pattern's characters (no label boundary): not a match
+			u := fmt.Sprintf("http://notmatch.example/p%d", i)
+			fmt.Fprintf(&b, "<a href=\"%s\">x</a>\n", u)
+			want = append(want, u+"|0")
+		case "s": // a sub-domain of the pattern: a match
+			u := fmt.Sprintf("http://www.match.example/p%d", i)
+			fmt.Fprintf(&b, "<a href=\"%s\">x</a>\n", u)
+			want = append(want, u+"|1")
 		case "i":
 			fmt.Fprintf(&b, "<img src=\"/img%d.png\">\n", i)
 		case "L": // only in the Link response header
@@ -90,6 +98,12 @@ func execHops(input string) Result {
 			case "n", "L", "t":
 				vals = append(vals, fmt.Sprintf("http://other.example/p%d", i))
 				want = append(want, vals[len(vals)-1]+"|0")
+			case "x":
+				vals = append(vals, fmt.Sprintf("http://notmatch.example/p%d", i))
+				want = append(want, vals[len(vals)-1]+"|0")
+			case "s":
+				vals = append(vals, fmt.Sprintf("http://www.match.example/p%d", i))
+				want = append(want, vals[len(vals)-1]+"|1")
 			case "i":
 				vals = append(vals, fmt.Sprintf("http://page.example/img%d.png", i))
 			}
@@ -151,7 +165,8 @@ func execHops(input string) Result {
 	viaOK := true
 	for _, o := range out {
 		raw := o.GetURL().Raw
-		if !strings.HasPrefix(raw, "http://match.example/") && !strings.HasPrefix(raw, "http://other.example/") {
+		if !strings.HasPrefix(raw, "http://match.example/") && !strings.HasPrefix(raw, "http://other.example/") &&
+			!strings.HasPrefix(raw, "http://notmatch.example/") && !strings.HasPrefix(raw, "http://www.match.example/") {
 			continue
 		}
 		k := fmt.Sprintf("%s|%d", raw, o.GetURL().GetHops())
@@ -216,7 +231,7 @@ func genHops(r *Rng, i int, tier string) string {
 	n := r.Intn(7)
 	var ks []string
 	for j := 0; j < n; j++ {
-		ks = append(ks, []string{"m", "n", "n", "i", "L", "M", "t"}[r.Intn(7)])
+		ks = append(ks, []string{"m", "n", "n", "i", "L", "M", "t", "x", "s"}[r.Intn(9)])
 	}
 	mr := r.Intn(4)
 	s := fmt.Sprintf("hops=%d maxhops=%d dc=%d status=%d redirs=%d mr=%d links=%s", hops, maxhops, r.Intn(2), status, r.Intn(mr+2), mr, strings.Join(ks, ","))
